@@ -252,7 +252,13 @@ Definition unsent (m : nat) (st : state) : list nat :=
 Definition count_ev (i : nat) (p : evphase) (tr : list event) : nat :=
   length (filter (fun e => (ev_stage e =? i) && evphase_eqb (ev_ph e) p) tr).
 
-(* is event e acceptable after the events pre (in any order: only counts are used)? *)
+(* is event e acceptable after the events pre (in any order: only counts are used)?
+   The last clause of a begin is the back-pressure of the unbuffered channels: stage i receives
+   item k only after it has handed k-1 to stage i+1, which receives it only after having handed
+   k-2 to stage i+2, ... : stage i+j has ended at least k-j items (j = 1 .. n-i; the sink emits
+   no events).  Without that clause the checker accepts traces that no run produces
+   (Properties/C19.v, trace_ok_loose_exact_refuted; the earlier checker is Spec/PipeSpec.v
+   trace_ok_loose). *)
 Definition ev_ok_b (n : nat) (pre : list event) (e : event) : bool :=
   let i := ev_stage e in
   let k := ev_item e in
@@ -261,7 +267,8 @@ Definition ev_ok_b (n : nat) (pre : list event) (e : event) : bool :=
   | EvBegin =>
       (k =? count_ev i EvBegin pre) &&
       (count_ev i EvBegin pre =? count_ev i EvEnd pre) &&
-      ((i =? 1) || (k <? count_ev (pred i) EvEnd pre))
+      ((i =? 1) || (k <? count_ev (pred i) EvEnd pre)) &&
+      forallb (fun j => k <=? count_ev (i + j) EvEnd pre + j) (seq 1 (n - i))
   | EvEnd =>
       (count_ev i EvBegin pre =? S (count_ev i EvEnd pre)) &&
       (k =? count_ev i EvEnd pre)
